@@ -116,8 +116,16 @@ def gen_case(rng, kind):
             "complement": [], "iter": []}
     # two-member unions of boundary faces: the runner also forms them with Boundary.__add__ (same set required)
     faces = [i for i, a in enumerate(atoms) if a["t"] in ("face", "bnd")]
+    case["nvariants"] = len(case["trees"])            # the trees after this index are not variants of the first one
+    if kind == "mixed" and n >= 3:
+        # the odd-dimension member (the last atom) next to an already built Union of the others: every level taken
+        # alone has members of one dimension only, the family as a whole does not
+        same = [{"leaf": i} for i in rng.sample(range(n - 1), rng.randint(2, n - 1))]
+        odd = {"leaf": n - 1}
+        case["trees"] += [{"node": [{"node": same}, odd]}, {"node": [odd, {"node": same}]},
+                          {"node": [{"node": [{"node": same}]}, {"node": [odd]}]},
+                          {"node": [{"node": same[:1] + [odd]}] + same[1:]}]
     if faces and kind != "bad":
-        case["nvariants"] = len(case["trees"])        # the trees after this index are not variants of the first one
         for _ in range(2):
             case["trees"].append({"node": [{"leaf": rng.choice(faces)}, {"leaf": rng.choice(faces)}]})
     big = {"node": [{"leaf": i} for i in rng.sample(range(n), rng.randint(2, n))]}
